@@ -72,11 +72,24 @@ Proof.
   cbn [rev forallb]. rewrite forallb_app, IH. cbn [forallb]. rewrite andb_true_r. apply andb_comm.
 Qed.
 
-Lemma obs_faulted_enc x0 x1 l x3 x4 :
-  obs_faulted (L [x0; x1; L (map enc_call l); x3; x4]) = negb (unfaulted l).
+Lemma obs_faulted_enc x0 x1 l x3 x4 x5 :
+  obs_faulted (L [x0; x1; L (map enc_call l); x3; x4; x5]) = negb (unfaulted l).
 Proof.
   unfold obs_faulted. rewrite sx_nth_L. cbn [nth sx_list]. unfold unfaulted.
   induction l as [|c l IH]; [reflexivity|]. cbn [map existsb forallb]. rewrite IH, negb_andb. reflexivity.
+Qed.
+
+Lemma hard_rev l : hard (rev l) = hard l.
+Proof.
+  unfold hard. induction l as [|c l IH]; [reflexivity|].
+  cbn [rev existsb]. rewrite existsb_app, IH. cbn [existsb]. rewrite orb_false_r. apply orb_comm.
+Qed.
+
+Lemma obs_hard_enc x0 x1 l x3 x4 x5 :
+  obs_hard (L [x0; x1; L (map enc_call l); x3; x4; x5]) = hard l.
+Proof.
+  unfold obs_hard. rewrite sx_nth_L. cbn [nth sx_list]. unfold hard.
+  induction l as [|c l IH]; [reflexivity|]. cbn [map existsb]. rewrite IH. reflexivity.
 Qed.
 
 Lemma sensible_cases r : sensible r = true -> copying r = true \/ r = RNoop.
@@ -87,13 +100,13 @@ Qed.
 
 Lemma seq_step_silent k r o fs a b :
   let '(res, s1) := exec_op k r o (mkst a b fs []) in
-  mon_seq_step k r o a b (enc_obs (mkobs res (rev (lg s1)) (sa s1) (sb s1))) = [].
+  forall px, mon_seq_step k r o a b (enc_obs (mkobs res (rev (lg s1)) (sa s1) (sb s1) px)) = [].
 Proof.
-  destruct (exec_op k r o (mkst a b fs [])) as [res s1] eqn:E.
-  unfold mon_seq_step, enc_obs. cbv zeta. cbn [o_res o_calls o_a o_b].
-  rewrite obs_faulted_enc, unfaulted_rev. rewrite !sx_nth_L.
+  destruct (exec_op k r o (mkst a b fs [])) as [res s1] eqn:E. intros px.
+  unfold mon_seq_step, enc_obs. cbv zeta. cbn [o_res o_calls o_a o_b o_pfx].
+  rewrite obs_faulted_enc, unfaulted_rev, obs_hard_enc, hard_rev. rewrite !sx_nth_L.
   cbn [nth sx_Z sx_list]. rewrite !sx_nats_of_nats.
-  destruct o as [d|d|ds]; cbn [exec_op] in E.
+  destruct o as [d|d|ds|d]; cbn [exec_op] in E.
   - (* Get *)
     destruct (cget r d (mkst a b fs [])) as [c s1'] eqn:G. inversion E; subst res s1'; clear E. cbn [fst snd].
     assert (C1 : (c =? 0) && negb (memb d a || memb d b) = false).
@@ -109,7 +122,12 @@ Proof.
     assert (C5 : (c =? 0) && copying r && negb (memb d (sa s1)) = false).
     { destruct (c =? 0) eqn:Ec; [|reflexivity]. apply Z.eqb_eq in Ec. subst c.
       destruct (copying r) eqn:Hc; [|reflexivity]. rewrite (cget_populates r d _ s1 Hc G). reflexivity. }
-    rewrite C1, C2, C5. reflexivity.
+    assert (C15 : (c =? 0) && hard (lg s1) = false).
+    { destruct (c =? 0) eqn:Ec; [|reflexivity]. apply Z.eqb_eq in Ec. cbn [andb].
+      destruct (hard (lg s1)) eqn:Hh; [|reflexivity]. exfalso.
+      destruct (cget_hard_fault_surfaces _ _ _ _ _ G) as (l & Hl & Hs). cbn [lg] in Hl. rewrite app_nil_r in Hl.
+      subst l. apply (Hs Hh Ec). }
+    rewrite C1, C2, C5, C15. reflexivity.
   - (* Put *)
     destruct (cput k d (mkst a b fs [])) as [c s1'] eqn:P. inversion E; subst res s1'; clear E. cbn [fst snd].
     destruct (cput_only_target _ _ _ _ _ P) as ((f & Hl) & Ho & Hc). cbn [lg] in Hl. rewrite Hl. cbn [rev app map forallb].
@@ -134,13 +152,35 @@ Proof.
     { rewrite negb_involutive. destruct (unfaulted (lg s1)) eqn:U; [|reflexivity].
       rewrite (cfm_fallback_answers_unfaulted _ _ _ _ _ _ F U). reflexivity. }
     rewrite C6, C7. reflexivity.
+  - (* GetFromComposite *)
+    destruct (cgfc r d (mkst a b fs [])) as [c s1'] eqn:G. inversion E; subst res s1'; clear E. cbn [fst snd].
+    assert (C8 : (c =? 0) && negb (memb d a || memb d b) = false).
+    { destruct (c =? 0) eqn:Ec; [|reflexivity]. apply Z.eqb_eq in Ec. subst c.
+      destruct (cgfc_sound _ _ _ _ G) as [H|H]; cbn [sa sb] in H; rewrite H; cbn; [reflexivity|].
+      rewrite orb_true_r. reflexivity. }
+    assert (C9 : sensible r && negb (negb (unfaulted (lg s1)))
+                 && (if memb d a || memb d b then negb (c =? 0) else negb (c =? 5)) = false).
+    { destruct (sensible r) eqn:S; [|reflexivity]. rewrite negb_involutive.
+      destruct (unfaulted (lg s1)) eqn:U; [|reflexivity]. cbn [andb].
+      pose proof (cgfc_complete_unfaulted r d _ c s1 (sensible_cases r S) G U) as Hc. cbn [sa sb] in Hc.
+      rewrite Hc. destruct (memb d a || memb d b); reflexivity. }
+    assert (C10 : (c =? 0) && copying r && negb (memb d (sa s1)) = false).
+    { destruct (c =? 0) eqn:Ec; [|reflexivity]. apply Z.eqb_eq in Ec. subst c.
+      destruct (copying r) eqn:Hc; [|reflexivity].
+      rewrite (cgfc_populates r d _ s1 (copying_not_noop r Hc) G). reflexivity. }
+    assert (C15 : (c =? 0) && hard (lg s1) = false).
+    { destruct (c =? 0) eqn:Ec; [|reflexivity]. apply Z.eqb_eq in Ec. cbn [andb].
+      destruct (hard (lg s1)) eqn:Hh; [|reflexivity]. exfalso.
+      destruct (cgfc_hard_fault_surfaces _ _ _ _ _ G) as (l & Hl & Hs). cbn [lg] in Hl. rewrite app_nil_r in Hl.
+      subst l. apply (Hs Hh Ec). }
+    rewrite C8, C9, C10, C15. reflexivity.
 Qed.
 
 Lemma seq_go_silent k r h : forall a b,
   mon_seq_go k r h a b (map enc_obs (run_hist k r h (a, b))) = [].
 Proof.
   induction h as [|of h IH]; intros a b; [reflexivity|].
-  cbn [run_hist]. unfold run_step. cbn [fst snd].
+  cbn [run_hist]. unfold run_step. cbn [fst snd]. cbv zeta.
   pose proof (seq_step_silent k r (fst of) (snd of) a b) as S.
   destruct (exec_op k r (fst of) (mkst a b (snd of) [])) as [res s1].
   cbn [map mon_seq_go]. rewrite S. cbn [app].
@@ -306,7 +346,7 @@ Lemma ec_step_silent size dur o s recs :
   step_sound dur o (fst (estep size dur o s)) recs -> (length (times (cache s)) <= size)%nat ->
   mon_ec_step size dur o recs (backend s) (enc_eobs (fst (estep size dur o s))) = ([], step_recs dur o s ++ recs).
 Proof.
-  intros Hs Hb. destruct o as [ds d1 d2 fault|ds d1|ds d1|d|d]; cbn [estep step_recs step_sound mon_ec_step] in *.
+  intros Hs Hb. destruct o as [ds d1 d2 fault|ds d1|ds d1|d|d|d fault]; cbn [estep step_recs step_sound mon_ec_step] in *.
   - destruct (ec_remove_existing dur (now s + d1) (dedup_sort ds) (cache s)) as [mm c1] eqn:R. cbn [fst].
     pose proof (cached_bound _ _ _ _ _ _ R (dedup_sort_nodup ds)) as CB.
     destruct (negb (fault =? 0)) eqn:Ef; cbn [fst] in *; unfold enc_eobs; rewrite !sx_nth_L;
@@ -327,6 +367,11 @@ Proof.
   - cbn [fst]. unfold enc_eobs. rewrite !sx_nth_L. cbn [nth e_clock]. rewrite sx_Ns_of_Ns. reflexivity.
   - reflexivity.
   - reflexivity.
+  - cbn [fst]. unfold enc_eobs. rewrite !sx_nth_L. cbn [nth sx_Z e_code e_call of_option]. rewrite !sx_nth_L. cbn [nth].
+    rewrite sx_nats_of_nats, list_eqb_refl. cbn [andb app].
+    destruct (fault =? 0) eqn:Ef; cbn [negb].
+    + rewrite Z.eqb_refl. reflexivity.
+    + rewrite Ef. reflexivity.
 Qed.
 
 Lemma backend_estep size dur o s :
@@ -337,7 +382,7 @@ Lemma backend_estep size dur o s :
   | _ => backend s
   end.
 Proof.
-  destruct o as [ds d1 d2 fault|ds d1|ds d1|d|d]; cbn [estep]; try reflexivity.
+  destruct o as [ds d1 d2 fault|ds d1|ds d1|d|d|d fault]; cbn [estep]; try reflexivity.
   - destruct (ec_remove_existing _ _ _ _). destruct (negb _); reflexivity.
   - destruct (ec_remove_existing _ _ _ _). reflexivity.
 Qed.
@@ -420,6 +465,37 @@ Example seq_example :
   map (fun o => sx_Z (sx_nth o 0)) (sx_list (run17 inp)) = [0; 14; 0; 0; 5]
   /\ sx_nth (sx_nth (run17 inp) 3) 1 = L [A 4]
   /\ agree17 inp (run17 inp) = true /\ mon17 inp (run17 inp) = [].
+Proof. vm_compute. repeat split; reflexivity. Qed.
+
+(** Composite reads (GetFromComposite, op 3).  Read caching over the
+    deduplicating local replicator, fast {0}, slow {1, 2}: parent 0 from fast;
+    parent 1 read through (sink FindMissing, source Get, sink Put of the WHOLE
+    parent, child read back from the sink), then from fast; parent 2 with a
+    failing sink Put; with a failing fast backend; absent parent 4.  Read
+    fallback over the local replicator, primary {}, secondary {1}: the
+    primary's failure carries "Primary" (1), the secondary's "Secondary" (2),
+    so does the INTERNAL made of the sink's NOT_FOUND after the copy. *)
+Example seq_gfc_example :
+  (let inp := L [A 0; A 0; L [A 2; A 0]; L [A 0]; L [A 1; A 2];
+                 L [L [A 3; A 0; L []]; L [A 3; A 1; L []]; L [A 3; A 1; L []]; L [A 3; A 2; L [A 0; A 0; A 0; A 14]];
+                    L [A 3; A 2; L [A 13]]; L [A 3; A 4; L []]]] in
+   map (fun o => sx_Z (sx_nth o 0)) (sx_list (run17 inp)) = [0; 0; 0; 14; 13; 5]
+   /\ map (fun o => length (sx_list (sx_nth o 2))) (sx_list (run17 inp)) = [1; 5; 1; 4; 1; 4]%nat
+   /\ sx_nth (sx_nth (run17 inp) 1) 3 = L [A 0; A 1]
+   /\ agree17 inp (run17 inp) = true /\ mon17 inp (run17 inp) = [])
+  /\ (let inp := L [A 0; A 1; A 0; L []; L [A 1];
+                 L [L [A 3; A 1; L [A 14]]; L [A 3; A 1; L [A 0; A 14]]; L [A 3; A 1; L [A 0; A 0; A 0; A 5]];
+                    L [A 0; A 1; L [A 5; A 2]]; L [A 3; A 1; L []]]] in
+      map (fun o => (sx_Z (sx_nth o 0), sx_Z (sx_nth o 5))) (sx_list (run17 inp)) = [(14, 1); (14, 2); (13, 2); (2, 2); (0, 0)]
+      /\ agree17 inp (run17 inp) = true /\ mon17 inp (run17 inp) = [])
+  /\ (* existence cache, size 1, duration 5: object 0 recorded present, lost by the backend; a
+        FindMissing is still answered from the cache, a composite read is the backend's NOT_FOUND *)
+     (let inp := L [A 1; A 1; A 5;
+                L [L [A 3; A 0]; L [A 0; L [A 0]; A 0; A 0; A 0]; L [A 4; A 0]; L [A 0; L [A 0]; A 1; A 0; A 0];
+                   L [A 5; A 0; A 0]; L [A 3; A 0]; L [A 5; A 0; A 0]; L [A 5; A 0; A 14]]] in
+      map (fun o => (sx_Z (sx_nth o 0), sx_nth o 2)) (sx_list (run17 inp)) =
+        [(0, L []); (0, L [L [A 0]]); (0, L []); (0, L [L []]); (5, L [L [A 0]]); (0, L []); (0, L [L [A 0]]); (14, L [L [A 0]])]
+      /\ agree17 inp (run17 inp) = true /\ mon17 inp (run17 inp) = []).
 Proof. vm_compute. repeat split; reflexivity. Qed.
 
 Example ec_example :
